@@ -156,4 +156,130 @@ theorem run_ids (s : Sys) (sched : List Nat) (k : Nat) : ((run s sched).procs k)
     · subst hki; simp [stepProc_id]
     · simp [hki]
 
+/-! ### serialisability -/
+
+structure InvS (ids : Nat → Nat) (fs : Nat → Nat → Nat) (store0 : Nat → Nat) (s : SysS) : Prop where
+  ids_ok : ∀ i, (s.procs i).id = ids i
+  store_ok : ∀ o, s.store o = serial ids fs store0 s.log o
+  hold_ok : ∀ i, (s.procs i).phase = .holding → (s.procs i).snap = s.store (ids i) ∧ ids i ∈ s.locks
+  excl : ∀ i j, i ≠ j → (s.procs i).phase = .holding → (s.procs j).phase = .holding → ids i ≠ ids j
+  log_ok : ∀ i, i ∈ s.log ↔ (s.procs i).phase = .done
+
+theorem serial_snoc_same (ids : Nat → Nat) (fs : Nat → Nat → Nat) (store0 : Nat → Nat) (log : List Nat) (i : Nat) :
+    serial ids fs store0 (log ++ [i]) (ids i) = fs i (serial ids fs store0 log (ids i)) := by
+  simp [serial, List.filter_append, List.foldl_append]
+
+theorem serial_snoc_other (ids : Nat → Nat) (fs : Nat → Nat → Nat) (store0 : Nat → Nat) (log : List Nat) (i o : Nat)
+    (h : o ≠ ids i) : serial ids fs store0 (log ++ [i]) o = serial ids fs store0 log o := by
+  have : ¬ ids i = o := fun h' => h h'.symm
+  simp [serial, List.filter_append, this]
+
+theorem stepS_inv (ids : Nat → Nat) (fs : Nat → Nat → Nat) (store0 : Nat → Nat) (s : SysS) (i : Nat)
+    (h : InvS ids fs store0 s) : InvS ids fs store0 (stepS fs s i) := by
+  obtain ⟨hid, hst, hh, hx, hl⟩ := h
+  unfold stepS
+  simp only
+  cases hp : (s.procs i).phase with
+  | idle =>
+    simp only
+    by_cases hm : (s.procs i).id ∈ s.locks
+    · simp only [hm, if_true]
+      refine ⟨?_, hst, ?_, ?_, ?_⟩
+      rotate_left 3
+      · intro k
+        by_cases hki : k = i
+        · subst hki; rw [hl k, hp]; simp
+        · simp only [hki, if_false]; exact hl k
+      · intro k; by_cases hk : k = i
+        · subst hk; simp [hid]
+        · simp [hk, hid]
+      · intro k hk
+        by_cases hki : k = i
+        · subst hki; simp at hk
+        · simp only [hki, if_false] at hk ⊢; exact hh k hk
+      · intro a b hab ha hb
+        by_cases hai : a = i
+        · subst hai; simp at ha
+        · by_cases hbi : b = i
+          · subst hbi; simp at hb
+          · simp only [hai, hbi, if_false] at ha hb; exact hx a b hab ha hb
+    · simp only [hm, if_false]
+      have hmi : ids i ∉ s.locks := by rw [← hid i]; exact hm
+      refine ⟨?_, hst, ?_, ?_, ?_⟩
+      rotate_left 3
+      · intro k
+        by_cases hki : k = i
+        · subst hki; rw [hl k, hp]; simp
+        · simp only [hki, if_false]; exact hl k
+      · intro k; by_cases hk : k = i
+        · subst hk; simp [hid]
+        · simp [hk, hid]
+      · intro k hk
+        by_cases hki : k = i
+        · subst hki; simp [hid]
+        · simp only [hki, if_false] at hk ⊢
+          exact ⟨(hh k hk).1, List.mem_cons_of_mem _ (hh k hk).2⟩
+      · intro a b hab ha hb
+        by_cases hai : a = i
+        · subst hai
+          have hba : b ≠ a := fun h => hab h.symm
+          simp only [hba, if_false] at hb
+          intro he
+          exact hmi (he ▸ (hh b hb).2)
+        · by_cases hbi : b = i
+          · subst hbi
+            simp only [hai, if_false] at ha
+            intro he
+            exact hmi (he ▸ (hh a ha).2)
+          · simp only [hai, hbi, if_false] at ha hb; exact hx a b hab ha hb
+  | holding =>
+    simp only
+    obtain ⟨hsnap, hlock⟩ := hh i hp
+    refine ⟨?_, ?_, ?_, ?_, ?_⟩
+    rotate_left 4
+    · intro k
+      by_cases hki : k = i
+      · subst hki; simp
+      · simp only [hki, if_false, List.mem_append, List.mem_singleton, or_false]; exact hl k
+    · intro k; by_cases hk : k = i
+      · subst hk; simp [hid]
+      · simp [hk, hid]
+    · intro o
+      by_cases ho : o = (s.procs i).id
+      · subst ho
+        simp only [if_true]
+        rw [hid i, serial_snoc_same, ← hst, ← hsnap]
+      · simp only [ho, if_false]
+        rw [serial_snoc_other _ _ _ _ _ _ (by rw [← hid i]; exact ho)]
+        exact hst o
+    · intro k hk
+      by_cases hki : k = i
+      · subst hki; simp at hk
+      · simp only [hki, if_false] at hk ⊢
+        have hne : ids k ≠ ids i := hx k i hki hk hp
+        have hne' : ¬ ids k = (s.procs i).id := by rw [hid i]; exact hne
+        refine ⟨?_, ?_⟩
+        · simp only [hne', if_false]; exact (hh k hk).1
+        · rw [hid i]; exact (List.mem_erase_of_ne hne).mpr (hh k hk).2
+    · intro a b hab ha hb
+      by_cases hai : a = i
+      · subst hai; simp at ha
+      · by_cases hbi : b = i
+        · subst hbi; simp at hb
+        · simp only [hai, hbi, if_false] at ha hb; exact hx a b hab ha hb
+  | done => simp only; exact ⟨hid, hst, hh, hx, hl⟩
+  | refused => simp only; exact ⟨hid, hst, hh, hx, hl⟩
+
+theorem initS_inv (ids : Nat → Nat) (fs : Nat → Nat → Nat) (store0 : Nat → Nat) : InvS ids fs store0 (initS ids store0) :=
+  ⟨fun _ => rfl, fun _ => rfl, fun i h => by simp [initS] at h, fun i j _ h => by simp [initS] at h, fun i => by simp [initS]⟩
+
+theorem runS_inv (ids : Nat → Nat) (fs : Nat → Nat → Nat) (store0 : Nat → Nat) (sched : List Nat) :
+    InvS ids fs store0 (runS fs (initS ids store0) sched) := by
+  unfold runS
+  have : ∀ s, InvS ids fs store0 s → InvS ids fs store0 (sched.foldl (stepS fs) s) := by
+    induction sched with
+    | nil => intro s h; exact h
+    | cons i sched ih => intro s h; exact ih _ (stepS_inv ids fs store0 s i h)
+  exact this _ (initS_inv ids fs store0)
+
 end Rocfl.Lock
